@@ -20,6 +20,9 @@ pub const EPOLLERR: u32 = 0x008;
 pub const EPOLLHUP: u32 = 0x010;
 pub const EPOLLRDHUP: u32 = 0x2000;
 
+/// system calls inside one library call beyond which the call is declared livelocked
+pub const SYSCALL_STORM: usize = 300_000;
+
 /// Raised (as a panic payload) when the simulated process would block for ever:
 /// in a single-threaded simulation nobody else can make progress meanwhile.
 #[derive(Debug, Clone)]
@@ -237,6 +240,12 @@ impl World {
     fn push_log(&mut self, e: LogEntry) {
         if self.cfg.log {
             self.log.push(e);
+            // One library call that issues this many system calls is not making progress (e.g. retrying
+            // EAGAIN in a loop): in a single-threaded simulation nothing can change meanwhile.
+            if self.log.len() > SYSCALL_STORM {
+                self.log.clear();
+                std::panic::panic_any(WouldBlockForever { syscall: "a retry loop (hundreds of thousands of system calls inside one call)", fd: -1 });
+            }
         }
     }
 
